@@ -4,6 +4,7 @@ import PdfVerif.Model.Format
 import PdfVerif.Model.FBPredict
 import PdfVerif.Model.FBCCITT
 import PdfVerif.Model.FBParams
+import PdfVerif.Model.FBGlobals
 import PdfVerif.Spec.FBCodecs
 /-! Line-protocol handler for work package FB (predictors, CCITTFax, filter parameters). -/
 namespace PdfVerif.Driver.FB
@@ -118,10 +119,10 @@ def handle (args : List String) : String :=
     match int? cols, int? rows, nat? nb with
     | some cols, some rows, some nb =>
       let f : FCCITT := ⟨-1, false, false, cols, rows, true, false, 0⟩
-      -- body of `nb` bytes 0xff, Group 4, no EOFB: every bit is a V0 code = one white row; the 7-bit
-      -- mode look-ahead meets the end of the data five codes before the end (see `cdec` for the
-      -- full decoder on small widths)
-      s!"{if f.budgetOk nb then min (8 * nb - 5) f.decodeMaxRows.toNat else 0} {bufferBytes f.decParams}"
+      -- body of `nb` bytes 0xff, Group 4, no EOFB: every bit is a V0 code = one white row, and every
+      -- one of them is delivered (the look-ahead's end of data is raised only when made-up bits are
+      -- consumed; see `cdec` for the full decoder on small widths)
+      s!"{if f.budgetOk nb then min (8 * nb) f.decodeMaxRows.toNat else 0} {bufferBytes f.decParams}"
     | _, _, _ => "bad-args"
   | ["cmaxrows", cols, k, rows, flags, nb] =>   -- rows delivered from a body that holds more rows than the cap
     match int? cols, int? k, int? rows, nat? nb with
@@ -129,6 +130,10 @@ def handle (args : List String) : String :=
       let f := ccittOf cols k rows flags
       toString (if f.budgetOk nb then f.decParams.maxRows else 0)
     | _, _, _, _ => "bad-args"
+  | ["gchain", depth] =>   -- objects DecodeStream fetches along a /JBIG2Globals chain of `depth` streams
+    match nat? depth with
+    | some depth => toString (globalsChainFetches depth)
+    | none => "bad-args"
   | ["jbig2pull", avail] =>   -- bytes FilterJBIG2.Decode pulls from an endless upstream: the cap
                               -- min(budget.Available(), MaxJBIG2PageBytes+1) and one probe byte
     match int? avail with
